@@ -17,6 +17,12 @@ impl RawUnprocessedJSONArray {
     pub fn split_into_vector_of_strings(_json_string: String) -> Result<Vec<String>, String> {
         let mut list : Vec<String> = vec![];
 
+        // array is read byte by byte and each byte is converted to a char, it is not possible for multi-byte characters
+        if !_json_string.is_ascii() {
+            let message = format!("non ascii characters are not supported in json array: {}", _json_string);
+            return Err(message);
+        }
+
         // cursor
         let mut is_end_of_json_string = false;
         let mut cursor = io::Cursor::new(_json_string.to_string());
